@@ -22,12 +22,12 @@ NA = {
     "C20": "pure functions of polylines and of a graph; termination on cyclic graphs is a property of the input graph",
 }
 TEXT = {
-    "C06": ("Seeded search over construction histories of lanelet networks (from a list, lanelet by lanelet, from another network, via Scenario.add_objects, cut-outs, removals) with restart faults (deepcopy, pickle, XML and protobuf write->read) in between; after every step all lookups (find_lanelet_by_position / _by_shape, contains_points, get_obstacles, map_obstacles_to_lanelets, filter_obstacles_in_network) are compared with a brute-force scan over the current lanelets' raw vertices by an independent geometry oracle with an explicit don't-care band; the shape-semantics clause (contains_point vs exported geometry) rides along as a side condition on the query shapes. Sampling, not proof.", "4.C06"),
-    "C07": ("Seeded search over add / assign / remove / re-add histories of static and dynamic obstacles on small networks, with restart faults (XML / protobuf write then open(lanelet_assignment=True), deepcopy); after every step the recorded centre and shape assignments and every lanelet's registry are compared with an independent geometric reference model (raw lanelet vertices, occupancy parameters, don't-care band), removed obstacles must have vanished from all registries, and removing a contained obstacle must not raise. Sampling, not proof.", "4.C07"),
+    "C06": ("Seeded search over construction histories of lanelet networks (from a list, lanelet by lanelet, from another network, via Scenario.add_objects, cut-outs, removals) with restart faults (deepcopy, pickle, XML and protobuf write->read) in between; the harness also scribbles on every returned list (aliasing injection) and offers lanelets whose id is already present (must be refused); after every step all lookups (find_lanelet_by_position / _by_shape, contains_points, get_obstacles, map_obstacles_to_lanelets, filter_obstacles_in_network) are compared with a brute-force scan over the current lanelets' raw vertices by an independent geometry oracle with an explicit don't-care band; the shape-semantics clause (contains_point vs exported geometry) rides along as a side condition on the query shapes. Sampling, not proof.", "4.C06"),
+    "C07": ("Seeded search over add / assign / remove / re-add histories of static and dynamic obstacles on small networks, with restart faults (XML / protobuf write then open(lanelet_assignment=True|False), deepcopy) and fork faults that keep the original scenario alive next to its copy (sibling isolation, clients swap between the two); obstacles may arrive pre-assigned, stand still while turning, creep across boundaries, carry shapes that do not contain their reference point; after every step the recorded centre and shape assignments and every lanelet's registry are compared with an independent geometric reference model (raw lanelet vertices, occupancy parameters, don't-care band), removed obstacles must have vanished from all registries, and removing a contained obstacle must not raise. Sampling, not proof.", "4.C07"),
     "C09": ("Seeded search over interleavings of several logical clients (explicit adders, generate-then-add clients, single/list removers, re-adders, a network replacer) sharing one Scenario, with injected rejected operations, mid-batch failures and pickle/deepcopy restarts, run in lock-step with an abstract id-pool model; after every step uniqueness, model equality and a black-box exactness probe of the id pool (every id 1..12 and every generated id is addable on a deep copy iff no contained object uses it) are checked, and generated ids are checked for freshness over the whole history. Sampling, not proof: a clean batch is evidence.", "4.C09"),
-    "C10": ("Seeded search over histories of removals (network and scenario level, single and list form, with and without referenced elements) and cut-outs (by shape, by lanelet type, by lanelet list) on generated well-formed networks with shared signs/lights, stop lines and intersections, with restart faults in between, in lock-step with a reference graph model; after every step no id-valued attribute may name a missing element and the abstraction of the real network must equal the model (relations as sets, content fingerprints of everything not removed). Sampling, not proof.", "4.C10"),
-    "C11": ("Seeded search over interleavings of querier clients (which warm the caches) and mutator clients (translate_rotate on every level, prediction / trajectory / shape replacement, update_initial_state with history, lanelet add/remove, traffic-light cycle edits) with pickle/deepcopy restarts that carry warm caches along; after every step the answers of the mutated object are compared with those of an object freshly rebuilt through the public constructors from the current primary data, and the history lists with a list model. Sampling, not proof.", "4.C11"),
-    "C15": ("Seeded search over interleavings of 1-4 writer clients (XML / protobuf, precisions 1..12, write_to_file / write_scenario_to_file, ALWAYS / SKIP) sharing the process-global precision, a tmpfs directory and a simulated clock, with clock jumps (seconds to years, backwards, across midnight), planted files, missing target directories and torn protobuf writes (ENOSPC after n bytes); every write is compared (date aside) with a fork-isolated pristine twin writer, identically constructed writers are compared over the run's history, SKIP must leave planted bytes untouched, and sampled files are read back and their inventory compared. Sampling, not proof.", "4.C15"),
+    "C10": ("Seeded search over histories of removals (network and scenario level, single and list form, with and without referenced elements) and cut-outs (by shape, by lanelet type, by lanelet list) on generated well-formed networks with shared signs/lights, stop lines and intersections, with restart and fork faults in between (a cut-out and its source, a copy and its original stay alive side by side and must not influence each other), removals of absent ids, in lock-step with a reference graph model; after every step no id-valued attribute may name a missing element and the abstraction of the real network must equal the model (relations as sets, content fingerprints of everything not removed). Sampling, not proof.", "4.C10"),
+    "C11": ("Seeded search over interleavings of querier clients (which warm the caches) and mutator clients (translate_rotate on every level, prediction / trajectory / shape replacement, update_initial_state with history, lanelet add/remove, traffic-light cycle edits) with pickle/deepcopy restarts that carry warm caches along and fork faults that keep the original alive next to the copy (both are swept after every operation); after every step the answers of the mutated object are compared with those of an object freshly rebuilt through the public constructors from the current primary data, and the history lists with a list model. Sampling, not proof.", "4.C11"),
+    "C15": ("Seeded search over interleavings of 1-4 writer clients (XML / protobuf, precisions 1..12, write_to_file / write_scenario_to_file, ALWAYS / SKIP) sharing the process-global precision, a tmpfs directory and a simulated clock, with clock jumps (seconds to years, backwards, across midnight), planted files, missing target directories and torn protobuf writes (ENOSPC after n bytes); every write is compared (date aside) with a pristine twin: an identically constructed writer that writes at once in a process that never executed a run (zygote server, scenario rebuilt from its spec, input mutations re-applied), so process-global state left behind by other writers cannot reach the oracle; each run and each replay itself executes in such a pristine process; scenarios are mutated between writes; further faults: directory at the target, /dev/full, scripted ASK_USER_INPUT answers; identically constructed writers are compared over the run's history, SKIP must leave planted bytes untouched, and sampled files are read back and their inventory compared. Sampling, not proof.", "4.C15"),
     "C18": ("Seeded search over histories of read-only operations by 1-3 inspector clients (occupancy / state / lanelet / traffic-light queries, goal checks, ==/hash, copy/deepcopy/pickle, draw+render, XML and protobuf export incl. failing variants: bad queries, missing directories, torn writes) on rich scenarios obtained directly or through a file round trip; a deep structural snapshot through public accessors (incl. which attributes each state object has and container types) must be unchanged after every operation, and fork-isolated exports taken at step 0 and later must be identical modulo the date. Sampling, not proof.", "4.C18"),
 }
 NOTE = {
